@@ -42,7 +42,7 @@ def instance_cases(policies, partial=False, retract=False):
                 strategies.append({"runtime": draw(st.integers(1, 5)), "resources": {t: draw(st.integers(1, 2))}, "batch": 1})
             profiles.append({"name": f"pr{i}", "strategies": strategies})
         now = draw(st.integers(2, 10))
-        chains = draw(st.booleans()) and pname != "TetriSched_CPLEX"
+        chains = (draw(st.sampled_from([True, True, False])) if partial else draw(st.booleans())) and pname != "TetriSched_CPLEX"
         budget = draw(st.integers(2, 4))
         graphs, used = [], 0
         while used < budget:
@@ -59,6 +59,13 @@ def instance_cases(policies, partial=False, retract=False):
                                                        "conditional": False, "terminal": False, "probability": 1.0}], "release_time": 0, "deadline": now + 40})
             running.append({"graph": f"R{i}", "job": f"R{i}_j", "pool": 0, "worker": draw(st.integers(0, 1)), "strategy": draw(st.integers(0, 1)),
                             "elapsed": draw(st.integers(1, 3)) if partial else 0})
+        if partial and chains:
+            # a chain whose first task is already running (partially executed) while its child is still to be planned
+            for g in graphs:
+                if len(g["jobs"]) >= 2 and not g["name"].startswith("R") and draw(st.booleans()):
+                    running.append({"graph": g["name"], "job": g["jobs"][0]["name"], "pool": 0, "worker": draw(st.integers(0, 1)), "strategy": draw(st.integers(0, 1)),
+                                    "elapsed": draw(st.integers(1, 3))})
+                    g["release_time"] = 0
         disc = draw(st.sampled_from([1, 1, 2, 3])) if pname != "ILP" else 1
         pol = {"name": pname, "goal": "max_goodput", "enforce_deadlines": True, "retract_schedules": False, "lookahead": 0, "batching": False}
         if pname == "ILP":
@@ -100,10 +107,12 @@ class Space:
             for w in pool.workers:
                 self.workers.append((w.id, dict(state["info"]["workers"][w.id]["capacity"])))
         self.running = []
+        self.running_full = []  # the reservation of finding F12: the full strategy runtime counted from now
         for t in state["tasks"].values():
             if t.state == TaskState.RUNNING:
                 pl = t.current_placement
                 self.running.append((pl.worker_id, self.now, self.now + us(t.remaining_time), SC.demand_of(pl.execution_strategy)))
+                self.running_full.append((pl.worker_id, self.now, self.now + us(pl.execution_strategy.runtime), SC.demand_of(pl.execution_strategy)))
         self.disc = case["policy"].get("time_discretization", 1)
         self.wl = state["workload"]
 
@@ -351,15 +360,28 @@ def execute(case):
                                 return [(c.unique_name, o)] + r
                     return None
 
-                added = add_chain(0, placed_opts, 0)
+                def find_addition():
+                    return add_chain(0, placed_opts, 0)
             else:
-                added = None
-                ps = tg.get_parents(t)
-                if all(p.is_complete() for p in ps):
-                    for o in space.options(t, he):
-                        if space.fits(placed_opts, o):
-                            added = [(t.unique_name, o)]
-                            break
+                def find_addition():
+                    if all(p.is_complete() for p in tg.get_parents(t)):
+                        for o in space.options(t, he):
+                            if space.fits(placed_opts, o):
+                                return [(t.unique_name, o)]
+                    return None
+            added = find_addition()
+            if added and partial:
+                # is the miss explained by finding F12 (a running task reserves its worker for its full runtime from now)?
+                # If the task can be added even under that reservation, it is something else.
+                keep = space.running
+                space.running = space.running_full
+                try:
+                    still = find_addition()
+                finally:
+                    space.running = keep
+                if still:
+                    added = still
+                    tag = ".not_explained_by_full_runtime_reservation"
             if added:
                 desc = [(n, [i for i, (w, _c) in enumerate(space.workers) if w == o[0]][0], us(o[1].runtime), o[2]) for n, o in added]
                 got = {n: (None if p is None else (us(p.placement_time), us(p.execution_strategy.runtime))) for n, p in plan.items()}
@@ -381,5 +403,5 @@ CHECKS = [
     Check("ilp_goodput_retraction", execute, strategy=lambda tier: instance_cases(("ILP",), retract=True), budget={"quick": 128, "thorough": 3000}),
     Check("tetrisched_gurobi_maximal", execute, strategy=lambda tier: instance_cases(("TetriSched_Gurobi",)), budget={"quick": 160, "thorough": 5000}),
     Check("tetrisched_cplex_maximal", execute, strategy=lambda tier: instance_cases(("TetriSched_CPLEX",)), budget={"quick": 96, "thorough": 3000}),
-    Check("partially_executed_running", execute, strategy=lambda tier: instance_cases(("ILP", "TetriSched_Gurobi"), partial=True), budget={"quick": 96, "thorough": 2000}),
+    Check("partially_executed_running", execute, strategy=lambda tier: instance_cases(("ILP", "TetriSched_Gurobi"), partial=True), budget={"quick": 256, "thorough": 4000}),
 ]
